@@ -185,7 +185,8 @@ Props == [C01 |-> On("C01", C01(PreS, lastStep', PostS, out')),
           C20 |-> On("C20", C20(PreS, lastStep', PostS, out')),
           C13 |-> On("C13", C13(PreS, lastStep', PostS, out')),
           C07 |-> On("C07", C07Spec(lastStep', PostS, out')),
-          C14 |-> On("C14", C14(PreS, lastStep', PostS, out'))]
+          C14 |-> On("C14", C14(PreS, lastStep', PostS, out')),
+          C04 |-> On("C04", C04(PreS, lastStep', PostS, out'))]
 
 Emit == PrintT(ToJson([mi |-> mi, from |-> PreS, step |-> lastStep', to |-> PostS, dirty |-> dirty',
                        out |-> out', prop |-> Props]))
